@@ -31,8 +31,8 @@ PROPFILE = 'PropC20.v'
 LEVEL = 'proof'
 REQUIRES = ['From SFC.Base Require Import Res Expr.', 'From SFC.Codegen Require Import Gen CaseDefs.']
 
-ENDO_POOL = ['x', 'y', 'z', 'w', 'u', 'v', 'C', 'Y', 'HH__F', 'GOV__T', 'BUS__PROF', 'alpha', 'a1', 'b_2', 'W', 'q']
-EXO_POOL = ['G', 'R', 'Gbar', 'TAX', 'N0']
+ENDO_POOL = ['x', 'y', 'z', 'w', 'u', 'v', 'C', 'Y', 'HH__F', 'GOV__T', 'BUS__PROF', 'alpha', 'a1', 'b_2', 'W', 'q', 'T']
+EXO_POOL = ['G', 'R', 'Gbar', 'TAX', 'N0', 'K']
 FUNCS = {'sqrt': math.sqrt, 'abs': abs, 'max': max, 'min': min, 'float': float}
 NUMERIC = ('ZeroDiv', 'ValueError', 'OverflowError')
 DOCSTRING_STRESS = ['# data from C:\\Users\\brian\\model.txt', '# the """best""" guess of the parameters',
